@@ -21,7 +21,7 @@ func checkC18(p *Program, r *Report) {
 	r.NotCovered = "That KeyCnt equals the number of retained keys and that level totals are monotone (values of rank queries at run time)."
 	r.Trusted = []string{"go/ssa", "openacid/low/bitmap.Rank64/Rank128 inlined symbolically"}
 	li := levelRecordType(p)
-	r.Rule("C18.identity", "E6", "every level record is built with leaf = total - inner", 3)
+	r.Rule("C18.identity", "E6", "every level record is built with leaf = total - inner", 1)
 	if li == nil {
 		r.Unk("level record type", "", "Stat reads no slice of records from the trie (anchor not found)")
 		return
@@ -310,11 +310,7 @@ func checkFreshFor(p *Program, r *Report, rule string, reader *ssa.Function, wha
 		for _, ver := range vt.compatVer {
 			re := newResEngine(vt.ve, ver)
 			fr := &vframe{fn: un, verVals: map[ssa.Value]bool{}, stVals: map[ssa.Value]bool{un.Params[0]: true}}
-			instrsOf(un, func(_ *ssa.BasicBlock, in ssa.Instruction) {
-				if c, ok := in.(*ssa.Call); ok && c.Call.IsInvoke() && c.Call.Method.Name() == "GetVersion" {
-					fr.verVals[c] = true
-				}
-			})
+			markVersionValues(un, fr.verVals)
 			sum := re.summarize(fr, true, fields)
 			if !sum.must[f] || len(sum.early[f]) > 0 {
 				bad = append(bad, ver)
